@@ -77,6 +77,8 @@ def c12_fresh_lists(ex, st, res):
     references are new for the caller (>= its current allocation pointer) and distinct; the
     caller's allocation pointer moves past them, so everything the caller allocates later is
     distinct from them."""
+    if res.kind == 'none':      # (m5) `return None`: the clause is false, not out of subset
+        return v_bool(z3.BoolVal(False))
     a, b = _pair(ex, st, res)
     ra, rb = as_ref(a), as_ref(b)
     isref = z3.And(Val.is_ref(a.t), Val.is_ref(b.t))
@@ -127,6 +129,8 @@ spec('vars_out')(_out('vars'))
 @spec('c12_set_is')
 def c12_set_is(ex, st, s, d):
     x = z3.Const(fresh_name('x'), Val)
+    if s.kind == 'none':        # (m5) a collector that returns None does not return the stated set
+        return v_bool(z3.BoolVal(False))
     a, b = _dom_of(ex, st, s), _dom_of(ex, st, d)
     # beta-reduce the membership terms (set comprehensions are lambdas) and state the two inclusions separately
     l, r = z3.simplify(z3.Select(a, x)), z3.simplify(z3.Select(b, x))
@@ -294,3 +298,39 @@ def prepare_refuses(ex, st, e, db, n):
 @spec('engine_refuses')
 def engine_refuses(ex, st, e, db):
     return v_bool(uf('C12.engine_refuses', Val, Val, B)(ex.box(st, e), ex.box(st, db)))
+
+
+@spec('c12_field_only_set_to')
+def c12_field_only_set_to(ex, st, fname, value):
+    """(m5, round 3) Frame of the propagation of an id manager: in every object, field `fname` is what it was before
+    the call or is `value`.  Verification mode: before = the entry heap of the function under proof; call-site mode
+    (assumed for a callee): before = the heap just before the call (apply_contract installs it as heap0)."""
+    f = fname.lit
+    cur = st.field(f)
+    old = st.heap0.get(f)
+    if old is None or cur.eq(old):
+        return v_bool(z3.BoolVal(True))
+    r = z3.Int(fresh_name('r'))
+    vt = ex.box(st, value)
+    return v_bool(z3.ForAll([r], z3.Or(z3.Select(cur, r) == z3.Select(old, r), z3.Select(cur, r) == vt)))
+
+
+def _component(ex, st, res, i, what):
+    """(m5, round 3) component i of the (errors, warnings) pair an audit returns.  When the body returns None instead of a
+    pair the component is an ARBITRARY list (nothing can be proved about it, and c12_fresh_lists(None) is false), so such a
+    body fails its contract instead of leaving the verifier's subset."""
+    if res.kind == 'none':
+        v = V(VV.fresh_val(f'undef!{what}_of_none'), ex.ptype('list[str]'))
+        st.assume_type(v)
+        return v
+    return _pair(ex, st, res)[i]
+
+
+@spec('c12_errs')
+def c12_errs(ex, st, res):
+    return _component(ex, st, res, 0, 'errors')
+
+
+@spec('c12_warns')
+def c12_warns(ex, st, res):
+    return _component(ex, st, res, 1, 'warnings')
